@@ -63,15 +63,9 @@ class ClassTr:
     """Translates methods of one class (or module-level functions when cls is None)."""
 
     def __init__(self, tree, cls, prefix, ctor_params=None, methods=(), drop_args=('rtol', 'tol'),
-<<<<<<< HEAD
-                 known=None, skip_attrs=(), const_attrs=None, extra_np1=None, delegates=None, extra_sources=(), ndim=None,
-                 none_args=(), allow_dead=False):
-=======
                  known=None, skip_attrs=(), const_attrs=None, extra_np1=None, obj_attr=None, none_args=(),
                  param_calls=None, arg_objs=(), skip_calls=()):
->>>>>>> b-C09
         self.tree = tree
-        self.ndim = ndim                     # None | 'scalar' | 'array': which side of `if x.ndim == 0:` is translated
         self.cls = cls
         self.prefix = prefix
         self.methods = list(methods)
@@ -79,10 +73,6 @@ class ClassTr:
         self.known = dict(known or {})       # external callables: python name -> (coq name, n ctor params to pass?)
         self.skip_attrs = set(skip_attrs)
         self.const_attrs = dict(const_attrs or {})
-<<<<<<< HEAD
-        self.none_args = set(none_args)      # optional parameters fixed to None: `if p is None:` is resolved statically
-        self.allow_dead = allow_dead         # untranslatable local assignments are tolerated iff the name is never read by translated code
-=======
         self.obj_attr = obj_attr              # `self.<obj_attr>.X` reads constructor parameter X (pandas accessor classes)
         self.none_args = set(none_args)       # optional arguments modelled as "not given" (`if a is None: a = e` becomes a let)
         self.param_calls = dict(param_calls or {})   # `self.m(...)` calls that are free parameters of the model: method -> parameter
@@ -93,16 +83,7 @@ class ClassTr:
         self._used_param_calls = set()
         self._rbar = set()                    # let-bound names of type Rbar (values built with np.inf)
         self._inlining = []
->>>>>>> b-C09
         self.classes = {n.name: n for n in tree.body if isinstance(n, ast.ClassDef)}
-        for p in extra_sources:               # base classes that live in another file (C06: NotchApproximationLawBase)
-            for n in ast.parse(open(p).read()).body:
-                if isinstance(n, ast.ClassDef):
-                    self.classes.setdefault(n.name, n)
-        # attributes holding another translated object: attr -> (class name, prefix, method whitelist);
-        # the constructor arguments are read from the assignment in __init__ (C06: self._ramberg_osgood_relation)
-        self.delegates = dict(delegates or {})
-        self.delegate_args = {}
         self.modfuncs = {n.name: n for n in tree.body if isinstance(n, ast.FunctionDef)}
         self.modconsts = {}
         for n in tree.body:
@@ -129,7 +110,6 @@ class ClassTr:
                 break
             out.append(c)
             bases = [b.id for b in c.bases if isinstance(b, ast.Name) and b.id in self.classes]
-            bases += [b.attr for b in c.bases if isinstance(b, ast.Attribute) and b.attr in self.classes]
             if len(bases) > 1:
                 raise Unsupported('multiple inheritance in ' + name)
             name = bases[0] if bases else None
@@ -174,15 +154,6 @@ class ClassTr:
                 if isinstance(st, ast.Assign) and len(st.targets) == 1 and isinstance(st.targets[0], ast.Attribute) \
                         and isinstance(st.targets[0].value, ast.Name) and st.targets[0].value.id == 'self':
                     a = st.targets[0].attr
-                    if a in self.delegates:
-                        v = st.value
-                        fname = v.func.attr if isinstance(v, ast.Call) and isinstance(v.func, ast.Attribute) else \
-                            v.func.id if isinstance(v, ast.Call) and isinstance(v.func, ast.Name) else None
-                        if fname != self.delegates[a][0] or v.keywords:
-                            raise Unsupported('delegate %s is not constructed as %s(...)' % (a, self.delegates[a][0]))
-                        self.attrs = {x for x, _ in lets}
-                        self.delegate_args[a] = [self.expr(x, env) for x in v.args]
-                        continue
                     if a in self.skip_attrs:
                         continue
                     self.attrs = {x for x, _ in lets}
@@ -260,15 +231,8 @@ class ClassTr:
             return lit(n.value)
         if isinstance(n, ast.Name):
             if n.id in env:
-<<<<<<< HEAD
-                if env[n.id] in ('@none', '@dead'):
-                    raise Unsupported('use of %s (%s)' % (n.id, {'@none': 'fixed to None', '@dead': 'untranslatable local'}[env[n.id]]))
-                if env[n.id].startswith('@local:'):     # a local function passed as a value (e.g. to integrate.quad)
-                    return env[n.id][7:]
-=======
                 if env[n.id] in self._rbar:
                     raise Unsupported('possibly infinite value %s used in arithmetic' % n.id)
->>>>>>> b-C09
                 return env[n.id]
             if n.id in self.modconsts:
                 return lit(self.modconsts[n.id])
@@ -315,27 +279,9 @@ class ClassTr:
             return '(%s %s %s)' % (self.expr(n.left, env), op, self.expr(n.right, env))
         if isinstance(n, ast.Call):
             return self.call(n, env)
-        if isinstance(n, ast.IfExp) and self._none_test(n.test, env) is not None:
-            return self.expr(n.body if self._none_test(n.test, env) else n.orelse, env)
         if isinstance(n, ast.IfExp):
             return '(if %s then %s else %s)' % (self.cond(n.test, env), self.expr(n.body, env), self.expr(n.orelse, env))
-        if isinstance(n, ast.Lambda):
-            a = n.args
-            if a.vararg or a.kwarg or a.kwonlyargs or a.defaults or a.posonlyargs or not a.args:
-                raise Unsupported('lambda signature ' + ast.unparse(n)[:60])
-            env2 = dict(env)
-            for x in a.args:
-                env2[x.arg] = ident(x.arg)
-            return '(fun %s => %s)' % (' '.join(ident(x.arg) for x in a.args), self.expr(n.body, env2))
         raise Unsupported('expression ' + ast.unparse(n)[:80])
-
-    def _none_test(self, t, env):
-        """`p is None` / `p is not None` on a parameter: True/False when statically known, else None."""
-        if isinstance(t, ast.Compare) and len(t.ops) == 1 and isinstance(t.ops[0], (ast.Is, ast.IsNot)) \
-                and isinstance(t.left, ast.Name) and t.left.id in env \
-                and isinstance(t.comparators[0], ast.Constant) and t.comparators[0].value is None:
-            return (env[t.left.id] == '@none') == isinstance(t.ops[0], ast.Is)
-        return None
 
     def cond(self, c, env):
         if isinstance(c, ast.Compare) and len(c.ops) == 1:
@@ -372,8 +318,6 @@ class ClassTr:
                 return self.expr(n.args[0], env)
             if f.attr == 'power' and len(n.args) == 2 and not kw:
                 return self.power(n.args[0], n.args[1], env)
-            if f.attr == 'square' and len(n.args) == 1 and not kw:
-                return '(%s ^ 2)' % self.expr(n.args[0], env)
             if f.attr in NP1 and len(n.args) == 1 and not kw:
                 return '(%s %s)' % (NP1[f.attr], self.expr(n.args[0], env))
             if f.attr == 'where' and len(n.args) == 3 and not kw:
@@ -390,40 +334,7 @@ class ClassTr:
                         and ast.unparse(w.comparators[0]) == '0':
                     a, b = self.expr(n.args[0], env), self.expr(n.args[1], env)
                     return '(if Req_EM_T %s 0 then 1 else %s / %s)' % (b, a, b)
-                # np.divide(a, b, out=np.ones_like(x), where=c != 0)  /  where=c > 0   (any guard expression c)
-                if isinstance(o, ast.Call) and ast.unparse(o.func) == 'np.ones_like' and isinstance(w, ast.Compare) \
-                        and len(w.ops) == 1 and ast.unparse(w.comparators[0]) == '0':
-                    a, b, c = self.expr(n.args[0], env), self.expr(n.args[1], env), self.expr(w.left, env)
-                    if isinstance(w.ops[0], ast.NotEq):
-                        return '(if Req_EM_T %s 0 then 1 else %s / %s)' % (c, a, b)
-                    if isinstance(w.ops[0], ast.Gt):
-                        return '(if Rlt_dec 0 %s then %s / %s else 1)' % (c, a, b)
-            if f.attr == 'power' and len(n.args) == 2 and set(kw) == {'out', 'where'}:
-                # np.power(x, -k, out=np.ones_like(x), where=x != 0)  with a literal negative integer exponent
-                w, o, x = kw['where'], kw['out'], n.args[1]
-                if isinstance(o, ast.Call) and ast.unparse(o.func) == 'np.ones_like' and isinstance(w, ast.Compare) \
-                        and len(w.ops) == 1 and isinstance(w.ops[0], ast.NotEq) and ast.unparse(w.comparators[0]) == '0' \
-                        and ast.unparse(w.left) == ast.unparse(n.args[0]) \
-                        and isinstance(x, ast.UnaryOp) and isinstance(x.op, ast.USub) and isinstance(x.operand, ast.Constant) \
-                        and isinstance(x.operand.value, int) and not isinstance(x.operand.value, bool) and x.operand.value > 0:
-                    b = self.expr(n.args[0], env)
-                    return '(if Req_EM_T %s 0 then 1 else / (%s ^ %d))' % (b, b, x.operand.value)
             raise Unsupported('np.%s call %s' % (f.attr, ast.unparse(n)[:60]))
-        if isinstance(f, ast.Attribute) and isinstance(f.value, ast.Name) and f.value.id == 'norm' and f.attr in ('cdf', 'pdf'):
-            # scipy.stats.norm.cdf/pdf(x, loc=0, scale=1)  (PL.Strength.Normal: norm_cdf, norm_pdf)
-            if not 1 <= len(n.args) <= 3 or not set(kw) <= {'loc', 'scale'} or len(n.args) - 1 + len(kw) > 2:
-                raise Unsupported('norm.%s call %s' % (f.attr, ast.unparse(n)[:60]))
-            pos = [self.expr(a, env) for a in n.args]
-            loc = pos[1] if len(pos) > 1 else (self.expr(kw['loc'], env) if 'loc' in kw else '0')
-            if len(pos) > 1 and 'loc' in kw or len(pos) > 2 and 'scale' in kw:
-                raise Unsupported('norm.%s argument given twice' % f.attr)
-            scale = pos[2] if len(pos) > 2 else (self.expr(kw['scale'], env) if 'scale' in kw else '1')
-            return '(norm_%s %s %s %s)' % (f.attr, pos[0], loc, scale)
-        if isinstance(f, ast.Attribute) and isinstance(f.value, ast.Name) and f.value.id == 'integrate' and f.attr == 'quad':
-            # scipy.integrate.quad(f, a, b) idealised as (RInt f a b, 0); accuracy/subdivision hints do not change the ideal value
-            if len(n.args) != 3 or not set(kw) <= {'epsabs', 'epsrel', 'limit', 'points'}:
-                raise Unsupported('integrate.quad call ' + ast.unparse(n)[:60])
-            return '(quad_ideal %s %s %s)' % tuple(self.expr(a, env) for a in n.args)
         if isinstance(f, ast.Name) and f.id == 'abs' and len(n.args) == 1:
             return '(Rabs %s)' % self.expr(n.args[0], env)
         if isinstance(f, ast.Name) and f.id == 'float' and len(n.args) == 1:
@@ -444,13 +355,6 @@ class ClassTr:
             if f.attr in self.methods:
                 return '(' + ' '.join([self.prefix + f.attr] + [ident(p) for p in self.ctor_params] + args) + ')'
             raise Unsupported('call of self.%s (not in the method whitelist)' % f.attr)
-        if isinstance(f, ast.Attribute) and isinstance(f.value, ast.Attribute) and isinstance(f.value.value, ast.Name) \
-                and f.value.value.id == 'self' and f.value.attr in self.delegate_args:
-            cls, prefix, allowed = self.delegates[f.value.attr]
-            if f.attr not in allowed:
-                raise Unsupported('call of %s.%s (not in the delegate whitelist)' % (f.value.attr, f.attr))
-            args = [self.expr(a, env) for a in n.args] + [self.expr(v, env) for v in kw.values()]
-            return '(' + ' '.join([prefix + f.attr] + self.delegate_args[f.value.attr] + args) + ')'
         if isinstance(f, ast.Attribute) and isinstance(f.value, ast.Call) and isinstance(f.value.func, ast.Name) \
                 and f.value.func.id == 'super' and ('super_' + f.attr) in self.methods:
             args = [self.expr(a, env) for a in n.args]
@@ -460,47 +364,10 @@ class ClassTr:
         raise Unsupported('call ' + ast.unparse(n)[:80])
 
     # ---- statements
-    def body(self, stmts, env, lets, need_return=True):
+    def body(self, stmts, env, lets):
         """Translate a straight-line body; returns the Coq expression of the returned value."""
         stmts = self.flatten(stmts)
         for i, st in enumerate(stmts):
-<<<<<<< HEAD
-            if isinstance(st, ast.Assign) and len(st.targets) == 1 and isinstance(st.targets[0], ast.Subscript):
-                # masked self-assignment  x[x == c] = e   (element-wise: x := if x = c then e else x)
-                t = st.targets[0]
-                if isinstance(t.value, ast.Name) and t.value.id in env and isinstance(t.slice, ast.Compare) \
-                        and isinstance(t.slice.left, ast.Name) and t.slice.left.id == t.value.id:
-                    nm = ident(t.value.id)
-                    lets.append('let %s := if %s then %s else %s in' % (nm, self.cond(t.slice, env), self.expr(st.value, env), env[t.value.id]))
-                    env[t.value.id] = nm
-                    continue
-                raise Unsupported('assignment ' + ast.unparse(st)[:70])
-            if isinstance(st, ast.AugAssign) and isinstance(st.target, ast.Name):
-                op = {ast.Add: '+', ast.Sub: '-', ast.Mult: '*', ast.Div: '/'}.get(type(st.op))
-                if op is None:
-                    raise Unsupported('augmented assignment ' + ast.unparse(st)[:60])
-                v = '(%s %s %s)' % (self.expr(st.target, env), op, self.expr(st.value, env))
-                nm = ident(st.target.id)
-                lets.append('let %s := %s in' % (nm, v))
-                env[st.target.id] = nm
-                continue
-            if isinstance(st, ast.If) and self._none_test(st.test, env) is not None:
-                # `if p is None:` on an optional parameter: resolved statically (p fixed to None by the spec, or a real argument)
-                taken = st.body if self._none_test(st.test, env) else st.orelse
-                if self.body(taken, env, lets, need_return=False) is not None:
-                    raise Unsupported('return inside `if ... is None` branch')
-                continue
-            if isinstance(st, ast.Assign) and len(st.targets) == 1:
-                t = st.targets[0]
-                if isinstance(t, ast.Name):
-                    try:
-                        v = self.expr(st.value, env)
-                    except Unsupported:
-                        if not self.allow_dead:
-                            raise
-                        env[t.id] = '@dead'      # any later read of the name by translated code raises Unsupported
-                        continue
-=======
             if isinstance(st, ast.Assign) and len(st.targets) == 1 and isinstance(st.targets[0], ast.Name) \
                     and self._table_literal(st.value) is not None:
                 self.list_consts[st.targets[0].id] = self._table_literal(st.value)
@@ -528,7 +395,6 @@ class ClassTr:
                         continue
                     self._rbar.discard(ident(t.id))
                     v = self.expr(st.value, env)
->>>>>>> b-C09
                     nm = ident(t.id)
                     lets.append('let %s := %s in' % (nm, v))
                     env[t.id] = nm
@@ -568,35 +434,6 @@ class ClassTr:
                 lets.append('let %s := (fun %s => %s %s) in' % (nm, ' '.join(ident(a) for a in args), ' '.join(l2), r))
                 env[st.name] = '@local:' + nm
                 continue
-<<<<<<< HEAD
-            if isinstance(st, ast.Assert):
-                # shape-consistency guard (`assert a.shape == b.shape and ...`): raises, never changes a value
-                if all(isinstance(x, ast.Attribute) and x.attr == 'shape' for x in ast.walk(st.test)
-                       if isinstance(x, ast.Attribute)) and not any(isinstance(x, ast.Call) for x in ast.walk(st.test)):
-                    continue
-                raise Unsupported('assert ' + ast.unparse(st.test)[:60])
-            if isinstance(st, ast.If) and self.ndim is not None and isinstance(st.test, ast.Compare) \
-                    and ast.unparse(st.test).endswith(('.ndim == 0', '.size == 1', '.shape == ()')) and isinstance(st.test.left, ast.Attribute) \
-                    and isinstance(st.test.left.value, ast.Name) and st.test.left.value.id in env:
-                # 0-d (scalar input) versus array input: the spec item says which side it models
-                branch = st.body if self.ndim == 'scalar' else st.orelse
-                if not branch:
-                    continue
-                for sub in branch:
-                    if not isinstance(sub, (ast.Assign, ast.If)):
-                        raise Unsupported('statement in ndim branch ' + ast.unparse(sub)[:60])
-                self.body_nr(branch, env, lets)
-                continue
-            if isinstance(st, ast.If) and not st.orelse and len(st.body) == 1 and isinstance(st.body[0], ast.Assign) \
-                    and len(st.body[0].targets) == 1 and isinstance(st.body[0].targets[0], ast.Name) \
-                    and st.body[0].targets[0].id in env and isinstance(st.test, ast.Compare) and 'isinstance' not in ast.unparse(st.test):
-                # conditional overwrite of an existing scalar:  if c: x = e   ->  x := if c then e else x
-                tn = st.body[0].targets[0].id
-                nm = ident(tn)
-                lets.append('let %s := if %s then %s else %s in' % (nm, self.cond(st.test, env), self.expr(st.body[0].value, env), env[tn]))
-                env[tn] = nm
-                continue
-=======
             if isinstance(st, ast.Expr) and isinstance(st.value, ast.Call) and isinstance(st.value.func, ast.Attribute) \
                     and isinstance(st.value.func.value, ast.Name) and st.value.func.value.id == 'self' \
                     and st.value.func.attr in self.skip_calls:
@@ -633,7 +470,6 @@ class ClassTr:
                     env2.update({nm: lit(v) for nm, v in zip(names, r)})
                     out = '(if %s then %s else %s)' % (self.cond(st.body[0].test, env2), self.expr(st.body[0].body[0].value, env2), out)
                 return out
->>>>>>> b-C09
             if isinstance(st, ast.If):
                 # `if not isinstance(x, float): x = x.astype(float)` style identities
                 src = ast.unparse(st)
@@ -654,20 +490,8 @@ class ClassTr:
                     return self.expr_rbar(v, env)
                 return self.expr(v, env)
             raise Unsupported('statement ' + ast.unparse(st)[:70])
-        if not need_return:
-            return None
         raise Unsupported('no return statement')
 
-<<<<<<< HEAD
-    def body_nr(self, stmts, env, lets):
-        """Translate a statement list that contains no `return` (a branch spliced into the enclosing body)."""
-        sentinel = ast.Return(value=ast.Constant(value=0))
-        for st in stmts:
-            for x in ast.walk(st):
-                if isinstance(x, ast.Return):
-                    raise Unsupported('return inside a branch')
-        self.body(list(stmts) + [sentinel], env, lets)
-=======
     def rest(self, stmts, env):
         """The remaining statements as one expression.  Statements that only prepare an error message in front of an
         unconditional raise are not translated."""
@@ -762,7 +586,6 @@ class ClassTr:
             else:
                 out.append(st)
         return out
->>>>>>> b-C09
 
     def method(self, name):
         sup = name.startswith('super_')
@@ -778,16 +601,9 @@ class ClassTr:
                [a.arg for a in fn.args.kwonlyargs if a.arg not in self.drop_args]
         args = [a for a in args if a not in self.drop_args and a not in self.none_args and a not in self.arg_objs]
         env = {a: ident(a) for a in args}
-<<<<<<< HEAD
-        for a in args:
-            if a in self.none_args:
-                env[a] = '@none'
-        args = [a for a in args if a not in self.none_args]
-=======
         self._rbar = set()
         self.obj_fields = []
         self._used_param_calls = set()
->>>>>>> b-C09
         lets = ['let %s := %s in' % (self.attr_name(a), e) for a, e in self.attr_lets]
         ret = self.body(strip_doc(fn.body), env, lets)
         params = [ident(p) for p in self.ctor_params] + [ident(a) for a in args] + [ident(a) for a in sorted(self.obj_fields)] \
@@ -807,16 +623,10 @@ def translate_module(src_path, items, requires=()):
     tree = ast.parse(open(src_path).read())
     out = HEADER % os.path.relpath(src_path, '/')
     for r in requires:
-        out += ('From PL Require Import %s.\n' % r[3:]) if r.startswith('PL.') else ('From PLgen Require Import %s.\n' % r)
+        out += 'From PLgen Require Import %s.\n' % r
     sigs = {}
     for it in items:
         it = dict(it)
-        if 'symbolic' in it:          # symbolic execution of imperative element kernels (py2coq_sym.py)
-            import py2coq_sym
-            text, sg = py2coq_sym.translate_item(tree, it)
-            out += text
-            sigs.update(sg)
-            continue
         methods = it.pop('methods')
         tr = ClassTr(tree, it.pop('cls', None), it.pop('prefix'), methods=methods, **it)
         for m in methods:
